@@ -376,6 +376,22 @@ def _compress_tiles(
     data = xx.data
     assert is_dask_collection(data)
 
+    src_ydim = 1 if meta.axis == "SYX" and data.ndim == 3 else 0
+    ny, nx = meta.shape.yx
+    pad_y, pad_x = ny - data.shape[src_ydim], nx - data.shape[src_ydim + 1]
+    if pad_y > 0 or pad_x > 0:
+        # the layout pads the image; when that adds a whole row or column of tiles there must
+        # be pixels to put into them
+        import dask.array as da
+
+        fill = 0 if meta.nodata is None else meta.nodata
+        if isinstance(fill, str):
+            fill = float(fill)
+        pads = [(0, 0)] * data.ndim
+        pads[src_ydim] = (0, max(0, pad_y))
+        pads[src_ydim + 1] = (0, max(0, pad_x))
+        data = da.pad(data, pads, mode="constant", constant_values=fill)
+
     if meta.axis == "SYX":
         src_ydim = 1
         if data.ndim == 2:
